@@ -36,6 +36,9 @@ type ShimCase struct {
 	Sizes     []int      `json:"sizes"`
 	Script    []Decision `json:"script"`
 	NPoller   int        `json:"npoller"`
+	// API: how the bytes are handed over at the origin: write (default), writev (two buffers), sendfile
+	// (from a file), mixed (rotating)
+	API string `json:"api,omitempty"`
 }
 
 func runShim(c ShimCase) vlib.Result {
@@ -54,10 +57,10 @@ func runShim(c ShimCase) vlib.Result {
 	doWrites := func(conn *nbio.Conn) {
 		once.Do(func() {
 			pos := int64(0)
-			for _, s := range c.Sizes {
-				n, err := conn.Write(vlib.FillTagged(0, pos, s))
+			for i, s := range c.Sizes {
+				n, err := sendVia(conn, c.API, i, vlib.FillTagged(0, pos, s))
 				if err != nil || n != s {
-					writeErr.Store(fmt.Sprintf("Write(%d) returned (%d, %v)", s, n, err))
+					writeErr.Store(fmt.Sprintf("%s of %d bytes returned (%d, %v)", apiOf(c.API, i), s, n, err))
 					return
 				}
 				pos += int64(s)
@@ -238,6 +241,7 @@ func genShim(t *rapid.T) ShimCase {
 	for i := 0; i < n; i++ {
 		c.Sizes = append(c.Sizes, rapid.SampledFrom([]int{1, 2, 100, 4096, 65535, 65536, 65537, 70000, 200000}).Draw(t, "size"))
 	}
+	c.API = rapid.SampledFrom([]string{"", "", "writev", "sendfile", "mixed"}).Draw(t, "api")
 	ns := rapid.IntRange(1, 12).Draw(t, "nscript")
 	for i := 0; i < ns; i++ {
 		var d Decision
